@@ -4,7 +4,7 @@
 set -e
 PID=$1; FILE=$2; EXPR=$3; TIER=${4:-quick}
 SCR=$(mktemp -d /tmp/mut_XXXXXX)
-cp -r /repo/okdmr "$SCR/"
+cp -r "${BASE:-/repo}/okdmr" "$SCR/"
 sed -i "$EXPR" "$SCR/$FILE"
 if diff -q "/repo/$FILE" "$SCR/$FILE" >/dev/null; then echo "sed expression changed nothing"; rm -rf "$SCR"; exit 3; fi
 diff -u "/repo/$FILE" "$SCR/$FILE" | head -20 || true
